@@ -68,6 +68,16 @@ impl Default for MapOperationQueue<RandomState> {
     }
 }
 
+#[cfg(feature = "verif")]
+impl MapOperationQueue<RandomState> {
+    /// An empty queue whose epoch counter starts at the given value (to exercise wrap-around).
+    pub fn verif_with_head_epoch(head_epoch: usize) -> Self {
+        let mut queue = Self::new();
+        queue.head_epoch = head_epoch;
+        queue
+    }
+}
+
 fn make_copy(target: &mut BytesMut, bytes: impl AsRef<[u8]>) -> BytesMut {
     let mut content = bytes.as_ref();
     target.put(&mut content);
